@@ -80,24 +80,18 @@ func (pm *plainModel) size() int {
 	return -1
 }
 
+// anyNil: a value that has no JSON form other than null - nil, a nil pointer, a nil slice, a nil map.
 func anyNil(vs []sim.Val) bool {
 	for _, v := range vs {
-		if v.T == "nil" || v.T == "nilptr" {
+		if v.IsNullLike() {
 			return true
 		}
 	}
 	return false
 }
 
-// anyNull: Map and List also treat nil slices as null values (they encode to JSON null).
-func anyNull(vs []sim.Val) bool {
-	for _, v := range vs {
-		if v.T == "nil" || v.T == "nilptr" || v.T == "nilslice" {
-			return true
-		}
-	}
-	return false
-}
+// anyNull is anyNil (kept for the call sites of Map and List).
+func anyNull(vs []sim.Val) bool { return anyNil(vs) }
 
 func jsonVals(vs []sim.Val) []interface{} {
 	out := make([]interface{}, 0, len(vs))
@@ -343,6 +337,12 @@ func argClass(c sim.Call, size int) string {
 			cls = append(cls, "nil")
 		} else if v.T == "nilptr" {
 			cls = append(cls, "nil-pointer")
+		} else if v.T == "nilslice" || v.T == "nilmap" {
+			cls = append(cls, "nil-slice-or-map")
+		} else if v.T == "bytes" {
+			cls = append(cls, "byte-slice")
+		} else if v.T == "f64array" || v.T == "bytearray" {
+			cls = append(cls, "go-array")
 		} else if strings.HasPrefix(v.T, "*") {
 			cls = append(cls, "pointer")
 		} else if v.T == "tagged" || v.T == "plain" {
